@@ -717,6 +717,14 @@ class Registry:
             items[key] = val
             present[key] = cond
             return [(st, st.alloc(DictCell(items, present, c.ty)))]
+        if fname == "ghost_val" and isinstance(ex, SpecExecutor):
+            # ghost_val("name", <type>, args...): an uninterpreted function with a value of the given type
+            name = e.args[0].value
+            rty = self._as_ty(self.parse_type(e.args[1])) if not isinstance(self.parse_type(e.args[1]), Ty) else self.parse_type(e.args[1])
+            args = [ex.one(st, a) for a in e.args[2:]]
+            ts = [to_term(ex.freeze(st, a)) for a in args]
+            f = strings.uf("ghostv_" + name, *[t.sort() for t in ts], rty.sort())
+            return [(st, from_term(f(*ts), rty))]
         if fname == "ghost" and isinstance(ex, SpecExecutor):
             nv = ex.one(st, e.args[0])
             name = concrete_str(nv.t)
@@ -726,6 +734,9 @@ class Registry:
             ts = [to_term(ex.freeze(st, a)) for a in args]
             f = strings.uf("ghost_" + name, *[t.sort() for t in ts], BOOL)
             return [(st, VBool(f(*ts)))]
+        io_res = self._io_call(ex, st, e, fname)
+        if io_res is not None:
+            return io_res
         if fname == "seq_empty":
             ty = self._as_ty(self.parse_type(e.args[0]))
             return [(st, VSeq(ty, z3.Empty(TSeq(ty).sort())))]
@@ -796,6 +807,86 @@ class Registry:
         if e.keywords:
             raise EngineUnsupported("super() call with keywords")
         return ex.eval_many(st, list(e.args), k)
+
+    # ---- the text I/O the library uses, as ghost functions (trusted axioms T-io, see DESIGN.md) -----------------
+    # path_exists(p): Bool; file_text(p, raw): the decoded text of file p (raw: newline="" i.e. no translation);
+    # keepends(t): the LF-terminated segments of t in order (every segment non-empty).  A text stream object is an
+    # ObjCell of ghost class TextIO(lines, pos); readline() returns lines[pos] and advances, "" when exhausted.
+    def _io_call(self, ex, st, e, fname):
+        if isinstance(ex, SpecExecutor):
+            return None
+        def one(x):
+            r = ex.eval(st, x)
+            if len(r) != 1 or isinstance(r[0][1], Raised) or r[0][0] is not st:
+                raise EngineUnsupported("I/O call with a branching argument")
+            return r[0][1]
+        if fname == "os.path.exists" and len(e.args) == 1:
+            v = one(e.args[0])
+            if not isinstance(v, VStr):
+                raise EngineUnsupported("os.path.exists on a non-string")
+            return [(st, VBool(strings.uf("ghost_path_exists", v.t.sort(), BOOL)(v.t)))]
+        if fname in ("open", "io.StringIO") and "TextIO" in self.klasses:
+            v = one(e.args[0]) if e.args else None
+            if not isinstance(v, VStr) or len(e.args) != 1:
+                raise EngineUnsupported(f"{fname} with these arguments")
+            kws = {k.arg: k.value for k in e.keywords}
+            strsort = v.t.sort()
+            lsort = TSeq(T_STR).sort()
+            keepends = strings.uf("ghostv_keepends", strsort, lsort)
+            if fname == "open":
+                enc = kws.pop("encoding", None)
+                if not (isinstance(enc, ast.Constant) and enc.value in ("utf8", "utf-8")):
+                    raise EngineUnsupported("open without encoding='utf8'")
+                raw = False
+                if "newline" in kws:
+                    nl = kws.pop("newline")
+                    if not (isinstance(nl, ast.Constant) and nl.value in ("", None)):
+                        raise EngineUnsupported("open with this newline mode")
+                    raw = nl.value == ""
+                if kws:
+                    raise EngineUnsupported(f"open with keywords {sorted(kws)}")
+                text = strings.uf("ghostv_file_text", strsort, BOOL, strsort)(v.t, z3.BoolVal(raw))
+            else:
+                if kws:
+                    raise EngineUnsupported("io.StringIO with keywords")
+                text = v.t
+            lines = keepends(text)
+            st.assume(self._keepends_axiom(lines), "T-io:keepends")
+            ref = st.alloc(ObjCell("TextIO", {"lines": VSeq(T_STR, lines), "pos": VInt(z3.IntVal(0)),
+                                              "text": VStr(text)}, "local", "TextIO"))
+            return [(st, ref)]
+        if isinstance(e.func, ast.Attribute) and e.func.attr in ("readline", "read") and not e.args and not e.keywords:
+            # only for receivers that are TextIO objects
+            try:
+                recv = ex.eval(st, e.func.value)
+            except EngineUnsupported:
+                return None
+            if len(recv) != 1 or isinstance(recv[0][1], Raised):
+                return None
+            st2, r = recv[0]
+            if not (isinstance(r, VRef) and isinstance(st2.cell(r), ObjCell) and st2.cell(r).cls == "TextIO"):
+                return None
+            c = st2.cell(r)
+            lines, pos = c.fields["lines"].t, c.fields["pos"].t
+            if e.func.attr == "read":
+                if not z3.is_int_value(z3.simplify(pos)) or z3.simplify(pos).as_long() != 0:
+                    raise EngineUnsupported("read() on a stream already read from")
+                flds = dict(c.fields)
+                flds["pos"] = VInt(z3.Length(lines))
+                st2.set_cell(r, ObjCell(c.cls, flds, c.owner, c.view))
+                return [(st2, c.fields["text"])]
+            inside = z3.And(pos >= 0, pos < z3.Length(lines))
+            out = z3.If(inside, lines[pos], z3.Empty(lines.sort().basis()))
+            flds = dict(c.fields)
+            flds["pos"] = VInt(z3.If(inside, pos + 1, pos))
+            st2.set_cell(r, ObjCell(c.cls, flds, c.owner, c.view))
+            return [(st2, VStr(out))]
+        return None
+
+    @staticmethod
+    def _keepends_axiom(lines):
+        j = z3.Int("qj_keepends")
+        return z3.ForAll([j], z3.Implies(z3.And(j >= 0, j < z3.Length(lines)), z3.Length(lines[j]) >= 1))
 
     def call(self, ex: Executor, st: State, f: Val, args: list, kwargs: dict, node):
         if isinstance(f, VFunc):
@@ -1173,7 +1264,7 @@ class Registry:
             else:
                 st.set_cell(ref, ListCell(c.elem, fresh(TSeq(c.elem).sort(), nm), None, c.owner))
         elif isinstance(c, ObjCell):
-            kd = self.klass_of(c.cls)
+            kd = (self.klasses.get(c.view) if c.view else None) or self.klass_of(c.cls)
             flds = {}
             if kd is not None:
                 for k, tx in kd.fields.items():
@@ -1828,7 +1919,7 @@ SPEC_BUILTINS = {"implies", "iff", "lstrip", "rstrip", "strip", "lead_ws", "trai
                  "itos", "seq_empty", "iter_pos", "is_space", "all_space", "ite", "length", "strip_crlf",
                  "replace_all", "join_lf", "join_lf_opt", "is_none", "opt_val", "some", "none_of", "typed", "rec_has",
                  "strip_blank", "startswith", "endswith", "split_head", "first_index", "char_at", "contains_ws",
-                 "split_off", "split_on", "first_ws_hash", "typed_is_str", "re_matches", "re_group1"}
+                 "split_off", "split_on", "first_ws_hash", "typed_is_str", "re_matches", "re_group1", "join_sep"}
 
 
 # ---------------------------------------------------------------------------------------------
